@@ -184,6 +184,83 @@ fn consistent(e: &Env, s: &Store, i: &crate::svm::Ix) -> bool {
     true
 }
 
+/// Cooperating substitution of a whole bank: every occurrence of bank `k` in the instruction (main slot and risk
+/// accounts) becomes the foreign bank `fb`, together with everything that hangs off it - vaults, vault authorities,
+/// oracle, mint - and every token account of `k`'s mint is exchanged for the same wallet's token account of `fb`'s
+/// mint. What is left wrong is only the link between the bank and the group / the marginfi account. With `resort`
+/// the trailing (bank, oracle, ...) groups are re-ordered by bank key, descending, as the risk engine expects them.
+fn full_bundle(e: &Env, s: &Store, i: &mut crate::svm::Ix, k: &Pubkey, fb: &Pubkey, mode: u8) {
+    use solana_program::instruction::AccountMeta;
+    let kb = world::bank(s, k);
+    let fbb = world::bank(s, fb);
+    let is_bank = |p: &Pubkey| s.get(p).map(|a| a.owner == marginfi::ID && a.data.len() >= 8 && a.data[..8] == discriminators::BANK).unwrap_or(false);
+    let swap = |m: &mut AccountMeta| {
+        if m.pubkey == *k {
+            m.pubkey = *fb;
+            return;
+        }
+        if let Some((bi, kind, auth)) = vault_kind(e, &m.pubkey) {
+            if bi < 1000 && bi != usize::MAX && e.w.banks[bi].key == *k {
+                m.pubkey = vault_of(fb, kind, auth);
+            }
+            return;
+        }
+        if m.pubkey == kb.config.oracle_keys[0] && kb.config.oracle_keys[0] != Pubkey::default() {
+            m.pubkey = fbb.config.oracle_keys[0];
+            return;
+        }
+        if m.pubkey == kb.mint {
+            m.pubkey = fbb.mint;
+            return;
+        }
+        let Some(a) = s.get(&m.pubkey) else { return };
+        if (a.owner == spl_token::id() || a.owner == spl_token_2022::id()) && a.data.len() >= 165 && !(a.data.len() > 165 && a.data[165] == 1) && world::token_mint(s, &m.pubkey) == kb.mint {
+            let wallet = world::token_owner(s, &m.pubkey);
+            let twin = s.accts.iter().find(|(tk, ta)| (ta.owner == spl_token::id() || ta.owner == spl_token_2022::id()) && ta.data.len() >= 165 && !(ta.data.len() > 165 && ta.data[165] == 1) && world::token_mint(s, tk) == fbb.mint && world::token_owner(s, tk) == wallet && vault_kind(e, tk).is_none());
+            if let Some((tk, _)) = twin {
+                m.pubkey = *tk;
+            }
+        }
+    };
+    // the tail (risk accounts): from the first bank after the last program / sysvar account
+    let last_prog = i.accounts.iter().rposition(|m| s.get(&m.pubkey).map(|a| a.executable).unwrap_or(false) || m.pubkey == solana_program::sysvar::instructions::id());
+    let from = last_prog.map(|x| x + 1).unwrap_or(0);
+    let t0 = (from..i.accounts.len()).find(|&x| is_bank(&i.accounts[x].pubkey)).unwrap_or(i.accounts.len());
+    let mut groups: Vec<Vec<AccountMeta>> = vec![];
+    for m in i.accounts[t0..].iter().cloned() {
+        if is_bank(&m.pubkey) || groups.is_empty() {
+            groups.push(vec![m]);
+        } else {
+            groups.last_mut().unwrap().push(m);
+        }
+    }
+    i.accounts.truncate(t0);
+    for m in i.accounts.iter_mut() {
+        swap(m);
+    }
+    if mode == 2 {
+        let mut extra: Vec<AccountMeta> = groups.iter().find(|g| g[0].pubkey == *k).cloned().unwrap_or_else(|| vec![AccountMeta::new_readonly(*k, false), AccountMeta::new_readonly(kb.config.oracle_keys[0], false)]);
+        for m in extra.iter_mut() {
+            swap(m);
+        }
+        if !groups.iter().any(|g| g[0].pubkey == *fb) {
+            groups.push(extra);
+        }
+    } else {
+        for g in groups.iter_mut() {
+            for m in g.iter_mut() {
+                swap(m);
+            }
+        }
+    }
+    if mode >= 1 {
+        groups.sort_by(|a, b| b[0].pubkey.cmp(&a[0].pubkey));
+    }
+    for g in groups {
+        i.accounts.extend(g);
+    }
+}
+
 fn copy_with(a: &Acct, owner: Option<Pubkey>, bad_disc: bool) -> Acct {
     let mut c = a.clone();
     c.digest = Default::default();
@@ -270,6 +347,9 @@ fn substitutes(e: &Env, s: &Store, k: &Pubkey) -> (String, Vec<Sub>) {
                 vec![
                     Sub { what: "a bank of the foreign group", key: fb, forge: None },
                     Sub { what: "a bank of the foreign group with all its vaults, authorities and oracle", key: fb, forge: None },
+                    Sub { what: "full bundle: a bank of the foreign group in every place the bank is named, with its vaults, authorities, oracle, mint and the same wallets' token accounts of that mint", key: fb, forge: None },
+                    Sub { what: "full bundle, risk accounts re-sorted by bank key: a bank of the foreign group in every place the bank is named, with its vaults, authorities, oracle, mint and the same wallets' token accounts of that mint", key: fb, forge: None },
+                    Sub { what: "full bundle, added to the risk accounts: a bank of the foreign group in the instruction's bank slot, with its vaults, authorities, oracle, mint and the same wallets' token accounts of that mint; the risk accounts keep the original bank and list the foreign one as well, sorted by bank key", key: fb, forge: None },
                     Sub { what: "same bytes, wrong owner program", key: key("c08:wrongowner:bank"), forge: Some(copy_with(a, Some(solana_program::system_program::id()), false)) },
                     Sub { what: "same bytes, wrong discriminator", key: key("c08:wrongdisc:bank"), forge: Some(copy_with(a, None, true)) },
                 ],
@@ -493,6 +573,9 @@ pub fn run(_tier: Tier) -> Outcome {
                             }
                         }
                     }
+                    if sub.what.starts_with("full bundle") {
+                        full_bundle(&e, &s1, &mut tx.ixs[ii], &k, &sub.key, if sub.what.contains("added to the risk accounts") { 2 } else if sub.what.contains("re-sorted") { 1 } else { 0 });
+                    }
                     // a fixed destination is protected only where no entitled signer chooses it
                     let free_choice = class == "fixed_destination" && g.role != Role::Anyone;
                     let must_reject = !free_choice && (sub.always_illegitimate() || !consistent(&e, &s1, &tx.ixs[ii]));
@@ -500,6 +583,9 @@ pub fn run(_tier: Tier) -> Outcome {
                     let r = process_tx(&mut t, &tx);
                     let ok = r.ok();
                     st.cells += 1;
+                    if std::env::var("VERIF_C08_TRACE").map(|n| n == g.name).unwrap_or(false) {
+                        eprintln!("[c08 trace] {} ix#{} slot {} ({}) <- {}: ok={} code={} must_reject={}", g.name, ii, j, class, sub.what, ok, r.code(), must_reject);
+                    }
                     if !must_reject {
                         *st.classes.entry(format!("substitute:{}:consistent_alternative_call:{}", class, if ok { "ok" } else { "refused" })).or_insert(0) += 1;
                         continue;
